@@ -73,6 +73,14 @@ def mutate_tree(rng, t):
     return (t[0], t[1], mutate_tree(rng, t[2]))
 
 
+def duplicate_operand(rng, t):
+    op = rng.choice(["and", "or", "xor"])
+    if t[0] in ("and", "or", "xor"):
+        side = t[rng.choice([1, 2])]
+        return (t[0], side, copy.deepcopy(side))
+    return (op, t, copy.deepcopy(t))
+
+
 def commute(t):
     if t[0] in ("and", "or", "xor"):
         return (t[0], t[2], t[1])
@@ -160,7 +168,11 @@ def make_family(rng, kind):
     nmut = rng.choice([2, 3, 4])
     if kind == "cond":
         x = gen.tree_recipe(rng, depth=rng.choice([0, 1, 2, 3]), kinds=[("value", "none"), ("value", "length"), ("value", "dtype")], null_p=0.05)
+        if rng.random() < 0.3:
+            x = duplicate_operand(rng, x)       # a combination of two EQUAL operands, against its one-sided mutants
         vs = [x, copy.deepcopy(x), commute(x)] + [mutate_tree(rng, x) for _ in range(nmut)]
+        if x[0] in ("and", "or", "xor"):
+            vs += [(x[0], mutate_tree(rng, x[1]), x[2]), (x[0], x[1], mutate_tree(rng, x[2]))]
     elif kind == "part":
         x = gen.part_recipe(rng, doc)
         vs = [x, copy.deepcopy(x), copy.deepcopy(x)] + [mutate_part(rng, x) for _ in range(nmut)]
@@ -181,6 +193,8 @@ def make_family(rng, kind):
             vs.append(y)
     elif kind == "rule":
         x = ruledrv.rule_recipe(rng, doc, cast_p=0.3, maxlen=2)
+        if rng.random() < 0.25:
+            x["cond"] = duplicate_operand(rng, x["cond"])
         vs = [x, copy.deepcopy(x), dict(x, cond=commute(x["cond"]))]
         for _ in range(nmut):
             y = copy.deepcopy(x)
